@@ -15,6 +15,7 @@ namespace
   {
     typedef DT_ DT; typedef IT_ IT; typedef SparseMatrixBCSR<DT, IT, BH, BW> M;
     typedef DenseVectorBlocked<DT, IT, BH> VL; typedef DenseVectorBlocked<DT, IT, BW> VR;
+    typedef SparseMatrixBCSR<DT, typename OtherIndex<IT>::type, BH, BW> MO;
     struct Aux { int mb, nb; uint64_t bbits; };
     static constexpr bool has_shrink = false;
     static const char* prefix() { return "bcsr."; }
@@ -46,18 +47,24 @@ namespace
       if(!c.thorough && mb * nb > 6) continue;
       for(uint64_t bbits = 0; bbits < (uint64_t(1) << (mb * nb)); ++bbits)
         for(int rep = 0; rep < (bbits == 0 ? 2 : 1); ++rep)
-          for(int alphabet = 0; alphabet < 2; ++alphabet)
+          for(const Variant& var : uvariants(mb * nb <= 4))
             for(const UCase& uc : ucs)
             {
+              const int alphabet = var.alphabet;
               if(uc.op == U_DIAG && (mb != nb || BH != BW)) continue;
               if(uc.op >= U_MAXABS && uc.op <= U_MIN && bbits == 0) continue;
+              if(!alphabet_applies(uc.op, alphabet)) continue;
+              if(alphabet == 3 && uc.op == U_SCALE && !scalars[uc.var % 7].dyadic) continue;
+              if(var.scenario != S_BASE && (bbits == 0 || rep != 0)) continue;
               if(!c.want()) continue;
-              const DenseRef D = dense_from_blocks(mb, nb, BH, BW, bbits, alphabet);
+              set_extreme_exp<DT>();
+              const DenseRef D = dense_from_blocks(mb, nb, BH, BW, bbits, alphabet == 3 ? 0 : alphabet);
               const bool ef = (bbits == 0 && rep == 0);
+              static const char* sn[9] = {"", "", "", " operands=deep-clones", " operands=shallow-clones", " operands=weak-clones", " operands=moved", " operands=index-type-round-trip", ""};
               c.desc([&]{ return "bcsr<" + tp<DT, IT>() + "," + bs + "> blocks " + std::to_string(mb) + "x" + std::to_string(nb) + " blockpattern=" + std::to_string(bbits) + " scalar " + D.str()
-                + (bbits == 0 ? (rep ? " rep=allocated-empty " : " rep=entry-free ") : " ") + uname[uc.op] + " variant=" + std::to_string(uc.var) + (alphabet ? " alphabet=rounding" : " alphabet=exact"); });
-              guarded(c, ef, std::string("entry-free operand bcsr.") + uname[uc.op], [&]{ run_unary<T>(c, uc, D, rep, alphabet, typename T::Aux{mb, nb, bbits}); });
-              if(bbits != 0) c.nontrivial(verif::Hash().str("ub").str(tp<DT, IT>()).pod(BH).pod(BW).pod(mb).pod(nb).pod(bbits).pod(uc).pod(alphabet).get());
+                + (bbits == 0 ? (rep ? " rep=allocated-empty " : " rep=entry-free ") : " ") + uname[uc.op] + " variant=" + std::to_string(uc.var) + " alphabet=" + alphabet_name(alphabet) + sn[var.scenario]; });
+              guarded(c, ef, std::string("entry-free operand bcsr.") + uname[uc.op], [&]{ run_unary<T>(c, uc, D, rep, alphabet, typename T::Aux{mb, nb, bbits}, var.scenario); });
+              if(bbits != 0) c.nontrivial(verif::Hash().str("ub").str(tp<DT, IT>()).pod(BH).pod(BW).pod(mb).pod(nb).pod(bbits).pod(uc).pod(var).get());
               c.outcome(std::string("bcsr/") + uname[uc.op]);
               c.count("operations");
             }
@@ -157,6 +164,52 @@ namespace
           }
       }
     }
+    // ---- extra executions (lessons 2, 3, 4), see c03_algebra.cpp: all-negative alphabet / product added twice / derived operands
+    if((!complete && !allow) || ef) return;
+    for(int extra = 0; extra < 3; ++extra)
+    {
+      const int alphabet = (extra == 0) ? 2 : 0;
+      DenseRef X = scalar_ref(0, d.m, d.n, bx, BS, false, alphabet), Dd = scalar_ref(1, d.m, d.k, bd, BS, pop == P_CBC, alphabet),
+        A = scalar_ref(2, d.k, d.l, ba, BS, false, alphabet), B = scalar_ref(3, d.l, d.n, bb, BS, pop == P_CBC, alphabet);
+      for(DenseRef* p : {&X, &Dd, &A, &B}) for(auto& v : p->a) v = LD(DT(v));
+      MB sa = build_bcsr<DT, IT, BS, BS>(A, d.k, d.l, ba, rep), sx = build_bcsr<DT, IT, BS, BS>(X, d.m, d.n, bx, rep);
+      MB sdb, sbb; MC sdc, sbc;
+      if(pop == P_BBB) { sdb = build_bcsr<DT, IT, BS, BS>(Dd, d.m, d.k, bd, rep); sbb = build_bcsr<DT, IT, BS, BS>(B, d.l, d.n, bb, rep); }
+      else { sdc = build_csr<DT, IT>(unkron(Dd, BS), rep); sbc = build_csr<DT, IT>(unkron(B, BS), rep); }
+      const bool der = (extra == 2);
+      MB ma = der ? sa.clone(CloneMode::Weak) : sa.clone(CloneMode::Shallow);
+      MB mx = der ? sx.clone(CloneMode::Weak) : sx.clone(CloneMode::Shallow);
+      MB mdb = sdb.clone(CloneMode::Shallow), mbb; MC mdc = sdc.clone(CloneMode::Shallow), mbc;
+      if(der) { MB t = sbb.clone(CloneMode::Deep); MB moved(std::move(t)); mbb = std::move(moved); MC t2 = sbc.clone(CloneMode::Deep); MC moved2(std::move(t2)); mbc = std::move(moved2); }
+      else { mbb = sbb.clone(CloneMode::Shallow); mbc = sbc.clone(CloneMode::Shallow); }
+      const uint64_t ha = hash_of(sa), hx0 = hash_of(sx), sxs = hash_structure(mx),
+        hd = (pop == P_BBB) ? hash_of(sdb) : hash_of(sdc), hb = (pop == P_BBB) ? hash_of(sbb) : hash_of(sbc);
+      const LD alpha = (extra == 0) ? LD(1) : (extra == 1) ? LD(0.5L) : LD(-1);
+      const int reps = (extra == 1) ? 2 : 1;
+      auto op = [&]{ for(int q = 0; q < reps; ++q) { if(pop == P_BBB) mx.add_double_mat_product(mdb, ma, mbb, DT(alpha), allow); else mx.add_double_mat_product(mdc, ma, mbc, DT(alpha), allow); } };
+      const int st = trapped(op);
+      c.count("operations", uint64_t(reps));
+      static const char* en[3] = {" all-negative", " re-invocation", " derived-operands"};
+      c.count(extra == 0 ? "all_negative_product_executions" : extra == 1 ? "re_invocations" : "derived_object_cases");
+      if(st != 0) { c.fail(key + en[extra] + " crash", "operation died with signal " + std::to_string(st)); return; }
+      if(!c.check(hash_structure(mx) == sxs, key + en[extra] + " structure-modified", "layout of the output matrix changed")) return;
+      if(!c.check(hash_of(sa) == ha && ((pop == P_BBB) ? (hash_of(sdb) == hd && hash_of(sbb) == hb) : (hash_of(sdc) == hd && hash_of(sbc) == hb)), key + en[extra] + " operand-modified", "an input operand (source of a derived operand) was modified")) return;
+      if(der && !c.check(hash_of(sx) == hx0, key + en[extra] + " bystander-modified", "the matrix whose layout the output matrix shares (weak clone) was modified")) return;
+      const bool exact = std::is_same<DT, double>::value;
+      const DT* xv = mx.template val<Perspective::pod>();
+      size_t kk = 0;
+      for(int I = 0; I < d.m; ++I) for(int J = 0; J < d.n; ++J) if(bit(bx, I * d.n + J))
+        for(int bi = 0; bi < BS; ++bi) for(int bj = 0; bj < BS; ++bj)
+        {
+          const int i = I * BS + bi, j = J * BS + bj;
+          LD s2 = 0, as = 0;
+          for(int k = 0; k < Dd.n; ++k) if(Dd.has(i, k)) for(int l = 0; l < A.n; ++l) if(A.has(k, l) && B.has(l, j))
+          { const LD t = Dd.at(i, k) * A.at(k, l) * B.at(l, j); s2 += t; as += fabsl(t); }
+          const LD expect = X.at(i, j) + LD(reps) * alpha * s2;
+          if(!near<DT>(c, key + en[extra], xv[kk], expect, exact, LD(8 * (Dd.n * A.n + 2)) * eps * (fabsl(X.at(i, j)) + as), "scalar entry (" + std::to_string(i) + "," + std::to_string(j) + ")")) return;
+          ++kk;
+        }
+    }
   }
 
   inline bool is_complete(const PDims& d, uint64_t bx, uint64_t bd, uint64_t ba, uint64_t bb)
@@ -208,9 +261,9 @@ namespace
 int main(int argc, char** argv)
 {
   FEAT::Runtime::ScopeGuard guard(argc, argv);
-  verif::Spec spec; spec.property = "C03"; spec.harness = "c03_algebra_bcsr"; spec.max_fail_per_worker = 1000000;
-  spec.rule = "element-wise ops: case = (type pair, block shape, block grid, one of ALL block patterns, representation of the empty pattern, operation + variant, alphabet); "
-    "products: case = (overload, block dimension tuple, one of ALL block-pattern tuples (X,D,A,B), empty representation, allow_incomplete), each executed for alpha in {1,-1,1/2,0.3,0} x {exact, rounding}; "
+  verif::Spec spec; spec.property = "C03"; spec.harness = "c03_algebra_bcsr"; spec.max_fail_per_worker = 1000000; spec.case_timeout_s = 120;
+  spec.rule = "element-wise ops: case = (type pair, block shape, block grid, one of ALL block patterns, representation of the empty pattern, operation + variant, alphabet {exact, rounding, all-negative, extreme magnitudes} or (exact alphabet) operands that are deep/shallow/weak clones, moved or index-type-converted objects, target = weak clone of a bystander); every operation is invoked twice on the same objects; "
+    "products: case = (overload, block dimension tuple, one of ALL block-pattern tuples (X,D,A,B), empty representation, allow_incomplete), each executed for alpha in {1,-1,1/2,0.3,0} x {exact, rounding} + all-negative alphabet + product added twice (re-invocation) + derived operands (clones / moved, output = weak clone of a bystander); "
     "non-trivial = pattern(s) with entries; hash over all of these";
   spec.bounds_quick = "element-wise: block shapes 2x2,2x3,3x2,3x3 (double,u64), 2x2 (float,u32), 3x2 (double,u32); block grids up to 2x3/3x2 (170 block patterns); "
     "products: 2x2 blocks (double,u64) block dims {1,2}^4 with <= 14 pattern bits, 3x3 blocks <= 10 bits, (float,u32) 2x2 <= 10 bits; required aborts trapped in-process (1/97 sample re-run forked)";
